@@ -323,7 +323,13 @@ fn read_log(path: &std::path::Path) -> Result<String, String> {
 
 fn scenario_exp(seed: u64, threads: usize) -> Res {
     let mut g = Gen(seed ^ 0x657870);
-    let root = std::path::PathBuf::from(std::env::var("THREAD_WORLD_DIR").unwrap_or_else(|_| "/dev/shm/thread-world".into())).join(format!("exp-{seed}-{threads}-{}", std::process::id()));
+    let root = std::path::PathBuf::from(std::env::var("THREAD_WORLD_DIR").unwrap_or_else(|_| "/dev/shm/thread-world".into())).join(format!(
+        "exp-{seed}-{threads}-{}-{}",
+        std::process::id(),
+        // executions of one sweep (-Zmiri-many-seeds) share the process id: the directory has to be
+        // unique per execution, which only the host clock can give (isolation is off in this scenario)
+        std::time::SystemTime::now().duration_since(std::time::UNIX_EPOCH).map(|d| d.as_nanos()).unwrap_or(0)
+    ));
     let _ = std::fs::remove_dir_all(&root);
     let dim = 3 + g.below(3);
     let problems: Vec<NamedBits> = (0..2 + g.below(2)).map(|i| NamedBits { name: format!("bits{i}"), dim, w: 0.25 * (i + 1) as f64 }).collect();
